@@ -410,8 +410,12 @@ static int AbsValue(const common::AttributeValue &a, char tag)
   }
 }
 
+// explicit identity 0 = all-zero ids / default flags
+static int ExplFl(int i) { return i == 0 ? 0 : (i + 1) % 4; }
 static trace::TraceId MakeTid(uint8_t lead, int x)
 {
+  if (x == 0)
+    return trace::TraceId();
   uint8_t b[16] = {0};
   b[0]          = lead;
   b[15]         = static_cast<uint8_t>(x);
@@ -419,6 +423,8 @@ static trace::TraceId MakeTid(uint8_t lead, int x)
 }
 static trace::SpanId MakeSid(uint8_t lead, int x)
 {
+  if (x == 0)
+    return trace::SpanId();
   uint8_t b[8] = {0};
   b[0]         = lead;
   b[7]         = static_cast<uint8_t>(x);
@@ -477,10 +483,20 @@ struct Shared
 
 static json Project(Shared &sh, sdklogs::Recordable *rec)
 {
-  auto *rw = static_cast<sdklogs::ReadWriteLogRecord *>(rec);
+  // the exporter must only ever be handed recordables it made itself (MakeRecordable)
+  auto *rw = dynamic_cast<sdklogs::ReadWriteLogRecord *>(rec);
   json o;
   auto it = sh.made.find(rec);
-  o["r"]  = it == sh.made.end() ? -1 : it->second;
+  o["r"]  = (it == sh.made.end() || rw == nullptr) ? -1 : it->second;
+  if (rw == nullptr)
+  {
+    o["foreign"] = true;  // not a ReadWriteLogRecord: nothing can be read; r = -1 matches no expectation
+    for (const char *f : {"lg", "res", "sev", "body", "ts", "evid", "evname", "tid", "sid", "fl"})
+      o[f] = -1;
+    o["attrs"] = std::vector<int>(static_cast<size_t>(sh.nak), -1);
+    o["extra"] = 1;
+    return o;
+  }
   // instrumentation scope -> logger number
   const auto &sc     = rw->GetInstrumentationScope();
   std::string scname = sc.GetName(), scver = sc.GetVersion(), scurl = sc.GetSchemaURL();
@@ -757,6 +773,22 @@ struct Replayer
     mismatch = json{{"step", step}, {"what", what}, {"exp", exp}, {"expDev", expdev}, {"got", got}};
   }
 
+  std::unique_ptr<sdklogs::LogRecordProcessor> make_processor(const std::string &kind, size_t p)
+  {
+    if (kind == "simple" || kind == "hold")
+      return std::unique_ptr<sdklogs::LogRecordProcessor>(new sdklogs::SimpleLogRecordProcessor(
+          std::unique_ptr<sdklogs::LogRecordExporter>(new CapExporter(&sh, static_cast<int>(p), kind == "hold"))));
+    sdklogs::BatchLogRecordProcessorOptions o;
+    o.max_queue_size        = 4096;
+    o.max_export_batch_size = 512;
+    // (ForceFlush on an EMPTY queue only returns when the worker's periodic wait expires, so the
+    //  period is short; when exactly the worker calls Export does not matter: the exporter keeps
+    //  the recordables and they are read when the flush has completed)
+    o.schedule_delay_millis = std::chrono::milliseconds(3);
+    return std::unique_ptr<sdklogs::LogRecordProcessor>(new sdklogs::BatchLogRecordProcessor(
+        std::unique_ptr<sdklogs::LogRecordExporter>(new CapExporter(&sh, static_cast<int>(p), true)), o));
+  }
+
   // ---- configuration from the first history entry
   void setup()
   {
@@ -777,25 +809,7 @@ struct Replayer
     sh.held.resize(pipe.size());
     std::vector<std::unique_ptr<sdklogs::LogRecordProcessor>> procs;
     for (size_t p = 0; p < pipe.size(); ++p)
-    {
-      if (pipe[p] == "simple" || pipe[p] == "hold")
-      {
-        procs.emplace_back(new sdklogs::SimpleLogRecordProcessor(std::unique_ptr<sdklogs::LogRecordExporter>(
-            new CapExporter(&sh, static_cast<int>(p), pipe[p] == "hold"))));
-      }
-      else
-      {
-        sdklogs::BatchLogRecordProcessorOptions o;
-        o.max_queue_size        = 4096;
-        o.max_export_batch_size = 512;
-        // (ForceFlush on an EMPTY queue only returns when the worker's periodic wait expires, so the
-        //  period is short; when exactly the worker calls Export does not matter: the exporter keeps
-        //  the recordables and they are read when the flush has completed)
-        o.schedule_delay_millis = std::chrono::milliseconds(3);
-        procs.emplace_back(new sdklogs::BatchLogRecordProcessor(
-            std::unique_ptr<sdklogs::LogRecordExporter>(new CapExporter(&sh, static_cast<int>(p), true)), o));
-      }
-    }
+      procs.push_back(make_processor(pipe[p], p));
     sdkres::ResourceAttributes ra;
     ra.SetAttribute("res.id", static_cast<int64_t>(res));
     ra.SetAttribute("service.name", "svc-" + std::to_string(res));
@@ -885,8 +899,11 @@ struct Replayer
     else if (k == "ctx")
     {
       c.st  = ST_CTX;
-      c.ctx = trace::SpanContext(MakeTid(0xE0, v), MakeSid(0xE0, v), trace::TraceFlags(FlagByte(1 + v % 3)),
-                                 rng() % 2 == 0);
+      if (v == 0 && rng() % 2)
+        c.ctx = trace::SpanContext::GetInvalid();
+      else
+        c.ctx = trace::SpanContext(MakeTid(0xE0, v), MakeSid(0xE0, v), trace::TraceFlags(FlagByte(ExplFl(v))),
+                                   rng() % 2 == 0);
     }
     else if (k == "sid")
     {
@@ -1007,7 +1024,7 @@ struct Replayer
         else if (o == 1)
           rec->SetSpanId(MakeSid(0xE0, v));
         else
-          rec->SetTraceFlags(trace::TraceFlags(FlagByte(1 + v % 3)));
+          rec->SetTraceFlags(trace::TraceFlags(FlagByte(ExplFl(v))));
       }
     }
     else if (k == "sid")
@@ -1048,14 +1065,26 @@ struct Replayer
   }
 
   // ---- comparison of what reached the exporters in this step with the spec's expectation
-  void compare_proc(int step, size_t p, std::vector<json> got, const json &exp, const json &expdev)
+  // exp / expdev: what MUST have arrived (ideal / aliased); opt / optdev: what MAY additionally have
+  // arrived, at most once each, at a processor added after the record had been created
+  void compare_proc(int step, size_t p, std::vector<json> got, const json &exp, const json &expdev, const json &opt,
+                    const json &optdev)
   {
     auto by_r = [](const json &x, const json &y) { return x.at("r").get<int>() < y.at("r").get<int>(); };
     std::sort(got.begin(), got.end(), by_r);
     std::vector<json> e(exp.begin(), exp.end()), d(expdev.begin(), expdev.end());
+    nexports += static_cast<long>(got.size());
+    // optional deliveries that did happen become expectations
+    for (size_t i = 0; i < opt.size(); ++i)
+      for (auto &g : got)
+        if (g.at("r") == opt[i].at("r"))
+        {
+          e.push_back(opt[i]);
+          d.push_back(optdev[i]);
+          break;
+        }
     std::sort(e.begin(), e.end(), by_r);
     std::sort(d.begin(), d.end(), by_r);
-    nexports += static_cast<long>(got.size());
     bool same_ids = got.size() == e.size();
     for (size_t i = 0; same_ids && i < e.size(); ++i)
       same_ids = got[i].at("r") == e[i].at("r");
@@ -1143,7 +1172,7 @@ struct Replayer
         nexports += static_cast<long>(got.size());
       }
       else
-        compare_proc(step, p, got, st.at("exp")[p], st.at("expDev")[p]);
+        compare_proc(step, p, got, st.at("exp")[p], st.at("expDev")[p], st.at("opt")[p], st.at("optDev")[p]);
     }
   }
   std::vector<std::vector<json>> observed;
@@ -1177,6 +1206,8 @@ struct Replayer
     }
     else if (op == "Arg")
       ev["a"] = st.at("a");
+    else if (op == "AddProc")
+      ev["kind"] = st.at("via");
     else if (op == "EndEmit" || op == "Flush")
     {
       json got = json::array();
@@ -1290,6 +1321,17 @@ struct Replayer
             // the call returned: the caller's objects and buffers die NOW
             cargs.clear();
             b.release();
+          }
+          else if (op == "AddProc")
+          {
+            size_t p = pipe.size();
+            {
+              std::lock_guard<std::mutex> lk(sh.m);
+              sh.exported.emplace_back();
+              sh.held.emplace_back();
+            }
+            pipe.push_back(st.at("via").get<std::string>());
+            provider->AddProcessor(make_processor(pipe.back(), p));
           }
           else if (op == "Flush")
           {
@@ -1418,15 +1460,15 @@ struct Gen
         break;
       case 5:
         a["k"] = "ctx";
-        a["v"] = 1 + pick(5);
+        a["v"] = pick(6);
         break;
       case 6:
         a["k"] = pick(2) ? "sid" : "tid";
-        a["v"] = 1 + pick(5);
+        a["v"] = pick(6);
         break;
       case 7:
         a["k"] = "flags";
-        a["v"] = 1 + pick(3);
+        a["v"] = pick(4);
         break;
       case 8:
         a["k"]  = "event";
@@ -1487,14 +1529,19 @@ struct Gen
     nt = nthreads;
     open.assign(static_cast<size_t>(nt) + 1, {});
     scopes.assign(static_cast<size_t>(nt) + 1, {});
-    static const char *pipes[][3] = {{"simple", "", ""},       {"batch", "", ""},          {"hold", "", ""},
+    static const char *pipes[][3] = {{"", "", ""},             {"", "", ""},               {"simple", "", ""},
+                                     {"simple", "", ""},       {"batch", "", ""},          {"hold", "", ""},
                                      {"simple", "batch", ""},  {"batch", "simple", ""},    {"batch", "batch", ""},
                                      {"simple", "batch", "hold"}, {"batch", "hold", "simple"}, {"hold", "batch", "batch"}};
     json pipe = json::array();
-    int pi    = pick(9);
+    int pi    = pick(12);
+    int npipe = 0;
     for (int i = 0; i < 3; ++i)
       if (pipes[pi][i][0])
+      {
         pipe.push_back(pipes[pi][i]);
+        ++npipe;
+      }
     json cfg     = base("Init", 0);
     cfg["pipe"]  = pipe;
     cfg["res"]   = 1 + pick(3);
@@ -1567,6 +1614,15 @@ struct Gen
       else if (w < 89)
       {
         emit(t, "null", 0, 1 + pick(3));
+      }
+      else if (w < 92 && npipe < 3)
+      {
+        // LoggerProvider::AddProcessor while records created before are still open
+        static const char *kinds[] = {"simple", "batch", "hold"};
+        json s   = base("AddProc", 0);
+        s["via"] = kinds[pick(3)];
+        steps.push_back(s);
+        ++npipe;
       }
       else
       {
